@@ -3,13 +3,14 @@ import ScVerif.C15.Paging
 import ScVerif.C15.Store
 import ScVerif.C15.Records
 import ScVerif.C15.Icpt
+import ScVerif.C15.Hooks
 /-! Driver handler for C15: the state is the collection as records (`keys` line: its ids in ANY order, each
 record carrying its id as key field and stored under the intercepted id; `sop` lines: the creation / update /
 deletion operations of `Records.lean` / `Icpt.lean`), the collection's id interceptor, and what the List RPCs page
 over, `flisting` (the key fields in ascending order); `listing` is `Collection.List` (`rlisting`).
 
 ```
-icpt <id|lower|upper>              → ok                (resource.WithIDInterceptor of the collection, for the lines that follow)
+icpt <id|lower|upper|ns>            → ok                (resource.WithIDInterceptor of the collection, for the lines that follow)
 keys <hex,hex,…|->                 → ok <n>            (ids in insertion order; the model sorts)
 sop add <hex|-> <hex|->            → ok <hex> | exists | aborted     (id or "-" = empty: generate; candidate id)
 sop ensure <hex|->                 → ok <hex> | rejected
@@ -17,6 +18,7 @@ sop updm <hex|-> <0|1> <n|k|x|e>   → ok <hex> | notfound | rejected   (Update*
 sop updi <hex|-> <hex|-> <0|1> <n|k|x|e> → the same for UpdatePublication(id, message carrying that Id)
 sop delete <hex|-> <0|1>           → ok <hex> | notfound               (1: allow-missing)
 sop initial <hex|->                → ok <hex> | exists | rejected      (a WithInitial… record)
+sop hook <hex|-> <w|r|z>           → ok <hex> | failed | notfound | rejected   (Update*(message, InterceptBefore(cb)) without mask: the callback leaves the written key / makes the message a copy of the stored one and records an error / drops the key and records an error; vending Dispense)
 sop raw <hex|-> <hex|->            → ok <hex> | exists                 (resource.WithInitialRecord(storage id, message with that key field))
 listing                            → <hex,…|->        (Collection.List: items by storage id, shown by key field)
 page <gt|ge> <size> <E|B|K<hex>>   → ok <hex,…|-> <N|T<hex>> <total> | err <Code> | panic
@@ -105,7 +107,8 @@ def St.apply (st : St) (op : RecOp) : St × String :=
   ({ st with recs := r.1, keys := flisting r.1 }, showRes r.2)
 
 def parseIcpt? (s : String) : Option (String → String) :=
-  if s = "id" then some id else if s = "lower" then some asciiLower else if s = "upper" then some asciiUpper else none
+  if s = "id" then some id else if s = "lower" then some asciiLower else if s = "upper" then some asciiUpper
+  else if s = "ns" then some (fun x => if x = "" then "ns/" else x) else none
 
 def parseMask? (s : String) : Option Mask :=
   if s = "n" then some .none else if s = "k" then some .withKey else if s = "x" then some .withoutKey
@@ -145,6 +148,11 @@ def stepSt (st : St) (toks : List String) : Option (St × String) :=
   | ["sop", "initial", id] => do
     let id ← unhexId? id
     pure (st.apply (.initial id))
+  | ["sop", "hook", id, g] => do
+    let id ← unhexId? id
+    let g ← (if g = "w" then some keepNew else if g = "r" then some restoreOld else if g = "z" then some dropKey else none)
+    let r := st.recs.hstep st.f (.hooked id g)
+    pure ({ st with recs := r.1, keys := flisting r.1 }, match r.2 with | .res x => showRes x | .failed => "failed")
   | ["sop", "raw", sid, key] => do
     -- resource.WithInitialRecord(sid, message whose key field is `key`): a raw resource option, not an API of the models
     let sid ← unhexId? sid
